@@ -367,7 +367,13 @@ def build_go(workdir, cli=("bkl",), harness=True, race=False):
             gm = open(os.path.join(h2, "go.mod")).read().replace("=> /repo", "=> " + REPO)
             open(os.path.join(h2, "go.mod"), "w").write(gm)
             h = h2
-        shutil.copy(os.path.join(REPO, "go.sum"), os.path.join(h, "go.sum"))
+        # go.sum of the tree under test; written atomically and only when it differs (checks may run in parallel)
+        want = open(os.path.join(REPO, "go.sum"), "rb").read()
+        dst = os.path.join(h, "go.sum")
+        if not os.path.exists(dst) or open(dst, "rb").read() != want:
+            tmp = dst + ".%d.tmp" % os.getpid()
+            open(tmp, "wb").write(want)
+            os.replace(tmp, dst)
         rc, out = sh(["go", "build", "-o", os.path.join(bindir, "verifh"), "."], cwd=h, env=GOENV, timeout=900)
         if rc:
             raise BuildError("go harness against /repo", out)
